@@ -199,8 +199,11 @@ namespace rkcommon {
     inline std::string Any::toString() const
     {
       std::stringstream retval;
-      retval << "Any : (currently holds value of type) --> "
-             << demangle(currentValue->valueTypeID().name());
+      retval << "Any : (currently holds value of type) --> ";
+      if (valid())
+        retval << demangle(currentValue->valueTypeID().name());
+      else
+        retval << "(empty)";
       return retval.str();
     }
 
